@@ -271,6 +271,35 @@ TslOps(c, orc, a, b) ==
       ELSE IF c.inj = 1 /\ ~Injective(Lr) THEN "ResolvedLayoutOneToOne"
       ELSE "ok"
 
+(* ---- beyond the list: accfg-insert-resets ---- *)
+(* no launch observes different registers because of an inserted reset (a reset makes the registers unknown), and when the function
+   returns no accelerator is left holding a live configuration state: every chain of states ends in a reset on every path *)
+Resets(c, orc, a, b) ==
+  IF AccfgObs(a, b) # "ok" THEN AccfgObs(a, b)
+  ELSE IF c.allpaths = 1 /\ \E acc \in DOMAIN b.cur : b.cur[acc] # 0 THEN "EveryStateChainEndsInReset"
+  ELSE "ok"
+
+(* ---- beyond the list: snax-to-func / snax-lower-mcycle are event renamings ---- *)
+(* every cluster barrier becomes exactly one call of snax_cluster_hw_barrier, every snax.clear_l1 one call of snax_clear_l1, every
+   cycle-counter read one `csrr zero, mcycle`; deallocations disappear; everything else happens as before, in the same order *)
+LowName(e) ==
+  IF e.k # "op" THEN <<e.k, "", <<>>>>
+  ELSE IF e.n = "snax.cluster_sync_op" \/ (e.n = "func.call" /\ Len(e.s) >= 1 /\ e.s[1] = "snax_cluster_hw_barrier") THEN <<"op", "barrier", <<>>>>
+  ELSE IF e.n = "snax.clear_l1" \/ (e.n = "func.call" /\ Len(e.s) >= 1 /\ e.s[1] = "snax_clear_l1") THEN <<"op", "clear_l1", <<>>>>
+  ELSE IF e.n = "snax.mcycle" \/ (e.k = "op" /\ e.n = "llvm.inline_asm") THEN <<"op", "mcycle", <<>>>>
+  ELSE <<"op", e.n, e.vals>>
+RECURSIVE LowSeq(_, _, _)
+LowSeq(log, k, dropdealloc) ==
+  IF k > Len(log) THEN <<>>
+  ELSE (IF (dropdealloc /\ log[k].k = "op" /\ log[k].n = "memref.dealloc") \/ log[k].k \notin {"op"} THEN <<>> ELSE <<LowName(log[k])>>)
+       \o LowSeq(log, k + 1, dropdealloc)
+Lowered(c, orc, a, b) ==
+  IF b.fault # "none" THEN "B.fault:" \o b.fault
+  ELSE IF \E k \in DOMAIN b.log : b.log[k].k = "op" /\ b.log[k].n \in {"snax.cluster_sync_op", "snax.clear_l1", "snax.mcycle", "memref.dealloc"}
+       THEN "NothingLeftToLower"
+  ELSE IF LowSeq(a.log, 1, TRUE) # LowSeq(b.log, 1, FALSE) THEN "SameEventsAfterRenaming"
+  ELSE "ok"
+
 Judge(contract, c, orc, a, b) ==
   IF a.fault # "none" THEN "skipA:" \o a.fault
   ELSE CASE contract \in {"dedup", "overlap", "trace"} -> AccfgObs(a, b)
@@ -287,5 +316,7 @@ Judge(contract, c, orc, a, b) ==
          [] contract = "placement" -> Placement(c, orc, a, b)
          [] contract = "casts" -> Casts(c, orc, a, b)
          [] contract = "tslops" -> TslOps(c, orc, a, b)
+         [] contract = "resets" -> Resets(c, orc, a, b)
+         [] contract = "lowered" -> Lowered(c, orc, a, b)
          [] OTHER -> "machinery:unknown-contract"
 =============================================================================
